@@ -398,7 +398,7 @@ def h_option_flatten(pattern, deep):
 
 def jobs_for(prop, tier):
     if prop == 'C01':
-        return jobs_c01(tier) + jobs_carry(tier) + jobs_numpy_getitem(tier) + jobs_option_getitem(tier)
+        return jobs_c01(tier) + jobs_carry(tier) + jobs_numpy_getitem(tier) + jobs_option_getitem(tier) + jobs_ellipsis(tier)
     if prop == 'C05':
         return jobs_c05(tier) + [j for j in jobs_option_below(tier) if j[1][3] in ('num', 'localindex')] + jobs_flatten(tier)
     if prop == 'C09':
@@ -2631,3 +2631,152 @@ def h_content_axis(method, n):
 
 def jobs_axis(tier, methods):
     return [(h_content_axis, (m_, n), 1800) for m_ in methods for n in ((0, 2) if tier == 'quick' else (0, 1, 2, 3))]
+
+
+# ------------------------------------------------------------------------------------------------ C01: ellipsis and newaxis expansion (Content::getitem_next)
+def _slice_object(nc, name, items):
+    """Slice holding the given item pointers (sealed)"""
+    cells = {}
+    for i, it in enumerate(items):
+        cells[16 * i] = (it, 8); cells[16 * i + 8] = (NULL, 8)
+    nc.m.record(name + '_buf', cells, const=True)
+    nb = 16 * len(items)
+    b = Ptr(name + '_buf', 0) if items else NULL
+    e = Ptr(name + '_buf', nb) if items else NULL
+    return nc.m.record(name, {0: (b, 8), 8: (e, 8), 16: (e, 8), 24: (BV(1, 8), 1)}, const=True)
+
+
+def _item_class(mem, p):
+    """class of the SliceItem a pointer designates (by its vptr), '' for null"""
+    cs = [(g, q) for g, q in nodeh.ptr_cases(p) if q.obj is not None]
+    if not cs:
+        return ''
+    o = mem.o[cs[0][1].obj]
+    vp = o.cells.get(cs[0][1].off)
+    vc = nodeh.ptr_cases(vp[0]) if vp else []
+    return str(vc[0][1].obj) if vc else '?'
+
+
+def _slice_items(mem, sl):
+    o = mem.o[sl.obj]
+    b, e = o.cells[sl.off][0], o.cells[sl.off + 8][0]
+    bc = [q for g, q in nodeh.ptr_cases(b) if q.obj is not None]
+    ec = [q for g, q in nodeh.ptr_cases(e) if q.obj is not None]
+    if not bc:
+        return []
+    qb, qe = bc[0], ec[0]
+    buf = mem.o[qb.obj]
+    n = (qe.off - qb.off) // 16
+    return [buf.cells[qb.off + 16 * i][0] for i in range(n)]
+
+
+@guard
+def h_ellipsis(k, kind):
+    """Content::getitem_next for an ellipsis / newaxis item with k integer items after it, on a node of any depth: an ellipsis stands for as many
+    full ranges as the structure has dimensions left - it is consumed exactly when the remaining items already account for all dimensions below
+    this one, otherwise one full range is applied here and the ellipsis stays in front of the remaining items; a newaxis item applies the rest
+    of the slice and wraps the answer in a regular dimension of size 1"""
+    nc = NodeCtx(['CNT', 'SLC', 'RA', 'IDX', 'UTL', 'KD', 'IDS'], [], unwind=max(12, 2 * k + 12))
+    dmin, dmax = nc.m.bv('mindepth'), nc.m.bv('maxdepth')
+    nc.m.assume(dmin >= 1, dmin <= dmax, dmax <= 50, nc.lencontent <= 2 ** 20)
+    nc.m.eng.stubs['vf$slot%d' % nc.slot('12minmax_depthEv')] = lambda eng, fr, ins, st, name, argv: [dmin, dmax]
+    seen = []
+    kk = z3.BitVec('k!', 64)
+
+    def s_getitem_next(eng, fr, ins, st, name, argv):
+        sret, selfp, head, tail, adv = argv
+        hp = st.mem.o[head.obj].cells.get(head.off)
+        hcls = _item_class(st.mem, hp[0]) if hp else ''
+        items = _slice_items(st.mem, tail)
+        hrange = None
+        if 'SliceRange' in hcls:
+            q = [qq for g, qq in nodeh.ptr_cases(hp[0]) if qq.obj is not None][0]
+            ho = st.mem.o[q.obj]
+            hrange = tuple(ho.cells[q.off + 8 * j][0] for j in (1, 2, 3))
+        seen.append(dict(pc=st.pc, head=hcls, headptr=hp[0] if hp else None, tail=[_item_class(st.mem, x) for x in items], tailptrs=items, hrange=hrange))
+        nc._ret(st, sret, nc.fresh_content(eng, st, BV(3), z3.Lambda([kk], kk + 500), derived='next'))
+        return None
+    nc.m.eng.stubs['vf$slot%d' % nc.slot('12getitem_nextERKSt10shared_ptrINS_9SliceItemEERKNS_5SliceERKNS_7IndexOfIlEE')] = s_getitem_next
+    ats = [nc.m.record('at%d' % i, {0: (nc.vptr_of('N7awkward7SliceAtE', 'SLC'), 8), 8: (BV(i), 8)}, const=True) for i in range(k)]
+    tail = _slice_object(nc, 'tail', ats)
+    cells = {}
+    nc.index_cells(cells, 0, NULL, BV(0), BV(0))
+    cells[48] = (BV(1, 8), 1)
+    adv = nc.m.record('advanced', cells, const=True)
+    nc.m.record('ret', {})
+    if kind == 'ellipsis':
+        item = nc.m.record('ellipsis', {0: (nc.vptr_of('N7awkward13SliceEllipsisE', 'SLC'), 8)}, const=True)
+        out = nc.m.call('_ZNK7awkward7Content12getitem_nextERKNS_13SliceEllipsisERKNS_5SliceERKNS_7IndexOfIlEE', [Ptr('ret', 0), nc.content0, item, tail, adv])
+        consumed = z3.Or(z3.BoolVal(k == 0), z3.And(dmin - 1 == k, dmax - 1 == k))
+        mixed = z3.And(z3.Not(consumed), z3.Or(dmin - 1 == k, dmax - 1 == k))
+        obls = [('raises exactly for a structure whose branches differ in depth when only one of them is exhausted by the items', z3.simplify(out.raised) != mixed)]
+        for ob in seen:
+            g = ob['pc']
+            is_first = (len(ob['tail']) == k - 1 or k == 0) and (('SliceAt' in ob['head']) if k else ob['head'] == '')
+            is_kept = 'SliceRange' in ob['head'] and len(ob['tail']) == k + 1 and 'SliceEllipsis' in (ob['tail'][0] if ob['tail'] else '')
+            obls.append(('the ellipsis is dropped exactly when the items account for every dimension below', z3.And(g, consumed, z3.BoolVal(not is_first))))
+            obls.append(('otherwise a full range is applied here and the ellipsis stays in front of the items', z3.And(g, z3.Not(consumed), z3.BoolVal(not is_kept))))
+            if ob['hrange'] is not None:
+                a_, b_, c_ = ob['hrange']
+                from .c18 import KNONE
+                obls.append(('the range applied here is the full range [None:None:1]', z3.And(g, z3.Or(a_ != KNONE, b_ != KNONE, c_ != 1))))
+            if is_kept:
+                same = [z3.Or([gg for gg, qq in nodeh.ptr_cases(ob['tailptrs'][1 + i]) if qq.obj == 'at%d' % i] + [z3.BoolVal(False)]) for i in range(k)]
+                obls.append(('the remaining items keep their order', z3.And(g, z3.Not(z3.And(same + [z3.BoolVal(True)])))))
+        tw = [('consumed', consumed)] + ([('kept', z3.And(z3.Not(consumed), z3.Not(mixed)))] if k else [])
+    else:
+        item = nc.m.record('newaxis', {0: (nc.vptr_of('N7awkward12SliceNewAxisE', 'SLC'), 8)}, const=True)
+        out = nc.m.call('_ZNK7awkward7Content12getitem_nextERKNS_12SliceNewAxisERKNS_5SliceERKNS_7IndexOfIlEE', [Ptr('ret', 0), nc.content0, item, tail, adv])
+        obls = [('newaxis does not raise', out.raised), ('the rest of the slice is applied exactly once', z3.BoolVal(len(seen) != 1))]
+        for ob in seen:
+            okh = (('SliceAt' in ob['head']) if k else ob['head'] == '') and len(ob['tail']) == max(k - 1, 0)
+            obls.append(('the rest of the slice is applied unchanged', z3.And(ob['pc'], z3.BoolVal(not okh))))
+        res = decode(nc, out.mem, nc.m.cell('ret', 0))
+        want = [[Elem(BV(500)), Elem(BV(501)), Elem(BV(502))]] if False else None
+        if res['cls'] != 'regular':
+            obls.append(('the answer is wrapped in a regular dimension', z3.BoolVal(True)))
+        else:
+            obls.append(('the new dimension has size 1 and one entry per entry of the answer', z3.Or(res['size'] != 1, res['length'] != 3)))
+            if res['content']['cls'] != 'opaque' or res['content'].get('derived') != 'next':
+                obls.append(('the new dimension wraps the answer itself', z3.BoolVal(True)))
+        tw = []
+
+    def replay(model, ent):
+        import numpy as np
+        d1 = model.eval(dmin, model_completion=True).as_signed_long() - 1
+        d2 = model.eval(dmax, model_completion=True).as_signed_long() - 1
+        if d1 < 1 or d2 > 4:
+            return False, 'structure of depth %d..%d is not replayed' % (d1, d2), {}
+        side = max(k + 1, 2)
+
+        def nest(d):
+            n = side ** d
+            return 'i64 %d %s ' % (n, ' '.join(map(str, range(n)))) + 'regular %d 0 ' % side * (d - 1)
+        items = ' '.join('at %d' % i for i in range(k))
+        if d1 == d2:
+            prog = nest(d1) + 'getitem %d %s %s' % (k + 1, kind, items)
+            a = np.arange(side ** d1).reshape((side,) * d1)
+            try:
+                exp = a[(Ellipsis if kind == 'ellipsis' else None,) + tuple(range(k))].tolist()
+            except IndexError:
+                exp = None
+        else:
+            if kind != 'ellipsis' or not (k in (d1, d2)):
+                return False, 'structures whose branches differ in depth are replayed only where the ellipsis must be refused', {}
+            prog = nest(d1) + nest(d2) + 'tuple 2 %d getitem %d %s %s' % (side, k + 1, kind, items)
+            exp = None
+        kind_, got = fullnative.akrun(prog)
+        payload = dict(program=prog, native=[kind_, got], expected=exp)
+        if exp is None:
+            if kind_ != 'ERR':
+                return True, 'array[%s, %s] on depth %d..%d must be refused, but the native library returns %s %s' % (kind, items, d1, d2, kind_, str(got)[:150]), payload
+            return False, 'native library raises, as expected', payload
+        if kind_ != 'OK' or got != exp:
+            return True, 'array[%s, %s] on a %d-dimensional array: native library %s %s, NumPy gives %s' % (kind, items, d1, kind_, str(got)[:150], exp), payload
+        return False, 'native library agrees (%s)' % str(got)[:80], payload
+    return mdischarge(nc.m, 'Content::getitem_next(%s) with %d items after it' % (kind, k), obls, tw, replay=replay, prefer=[dmin >= 2, dmax <= 5, dmax - dmin <= 1],
+                      extra=dict(bounds='%d integer items after the %s; min / max depth of the structure symbolic (1..50)' % (k, kind)))
+
+
+def jobs_ellipsis(tier):
+    return [(h_ellipsis, (k, kind), 1800) for kind in ('ellipsis', 'newaxis') for k in ((0, 1, 2) if tier == 'quick' else (0, 1, 2, 3))]
